@@ -30,8 +30,9 @@ VARTIME_CMP = {"memcmp", "bcmp", "strcmp", "strncmp", "memchr", "strlen", "strch
 
 
 class Taint:
-    def __init__(self, prog, resolve_slots, type_hints=None):
+    def __init__(self, prog, resolve_slots, type_hints=None, public_fields=None):
         self.prog = prog
+        self.public_fields = public_fields or set()     # {(struct type, offset, size)}: fields public by role
         self.type_hints = type_hints or {}      # func key -> {(root, prefix offsets): type} from the unoptimised shape
         self.resolve_slots = resolve_slots        # (func, call inst) -> [Func]
         self.funcs = sorted(prog.defined(), key=lambda f: f.key)
@@ -91,6 +92,9 @@ class Taint:
                 if names and names[-1] in L_FIELDS and seg.off is not None and not any(p.startswith("<") for p in path):
                     self.public_loads["field " + names[-1]] += 1
                     return None
+                if seg.off is not None and any(t == seg.ty and o <= seg.off and seg.off + (inst.get("size") or 1) <= o + z for (t, o, z) in self.public_fields):
+                    self.public_loads["field by role (keystream position)"] += 1
+                    return None
                 return ("mem", "secret memory %s" % addr_str(a, self.prog))
         return ("mem", "secret memory %s" % addr_str(a, self.prog))
 
@@ -146,6 +150,9 @@ class Taint:
         path = self.prog.describe(a.segs[-1].ty, a.segs[-1].off, inst.get("size"))
         names = [p for p in path if not p.startswith("[") and not p.startswith("<")]
         if names and names[-1] in L_FIELDS and not any(p.startswith("<") for p in path):
+            return addr_str(a, self.prog)
+        sg = a.segs[-1]
+        if any(t == sg.ty and o <= sg.off and sg.off + (inst.get("size") or 1) <= o + z for (t, o, z) in self.public_fields):
             return addr_str(a, self.prog)
         return None
 
